@@ -123,7 +123,13 @@ func intType(t types.Type) (ityp, bool) {
 type xlate struct {
 	p    *pkgInfo
 	errs []string
+	// statement translator (wirefuncs.go): identifiers that are state variables are rendered `s.<name>`,
+	// `p[i]` of a []byte variable as a bounds-unchecked load (the statement carries the check), `len(p)` as the length
+	stateVars  map[string]*svar
+	bytesIndex bool
 }
+
+func constantOne() constant.Value { return constant.MakeInt64(1) }
 
 func (x *xlate) fail(e ast.Expr, why string) string {
 	x.errs = append(x.errs, fmt.Sprintf("%s: %s", x.p.fset.Position(e.Pos()), why))
@@ -157,7 +163,21 @@ func (x *xlate) expr(e ast.Expr) string {
 	case *ast.ParenExpr:
 		return x.expr(e.X)
 	case *ast.Ident:
+		if x.stateVars != nil {
+			if _, ok := x.stateVars[e.Name]; ok {
+				return "s." + e.Name
+			}
+		}
 		return e.Name
+	case *ast.IndexExpr:
+		if x.bytesIndex {
+			if id, ok := e.X.(*ast.Ident); ok {
+				if v, ok := x.stateVars[id.Name]; ok && v.kind == "bytes" {
+					return fmt.Sprintf("(Go.rd s.%s (%s).toNat)", id.Name, x.expr(e.Index))
+				}
+			}
+		}
+		return x.fail(e, "unsupported index expression")
 	case *ast.BinaryExpr:
 		lt, ok := x.typeOf(e.X)
 		if !ok {
@@ -168,7 +188,18 @@ func (x *xlate) expr(e ast.Expr) string {
 		case token.SHL, token.SHR:
 			cv := x.p.info.Types[e.Y].Value
 			if cv == nil {
-				return x.fail(e, "non-constant shift count")
+				if x.stateVars == nil {
+					return x.fail(e, "non-constant shift count")
+				}
+				// variable shift count (Go: a count >= the width gives 0 / the sign fill, as BitVec does)
+				r := x.expr(e.Y)
+				if e.Op == token.SHL {
+					return fmt.Sprintf("(%s <<< (%s).toNat)", l, r)
+				}
+				if lt.signed {
+					return fmt.Sprintf("(BitVec.sshiftRight %s (%s).toNat)", l, r)
+				}
+				return fmt.Sprintf("(%s >>> (%s).toNat)", l, r)
 			}
 			n := cv.ExactString()
 			if e.Op == token.SHL {
@@ -234,6 +265,13 @@ func (x *xlate) expr(e ast.Expr) string {
 			args[i] = x.expr(a)
 		}
 		switch name {
+		case "len":
+			if id, ok := e.Args[0].(*ast.Ident); ok && x.stateVars != nil {
+				if v, ok := x.stateVars[id.Name]; ok && v.kind == "bytes" {
+					return fmt.Sprintf("(BitVec.ofNat 64 s.%s.length)", id.Name)
+				}
+			}
+			return x.fail(e, "unsupported len()")
 		case "bits.Len64":
 			return fmt.Sprintf("(goBitsLen64 %s)", args[0])
 		case "SizeOfVarint", "SizeOfTagKey", "SizeOfZigZag":
@@ -871,6 +909,7 @@ func main() {
 	// F6/F7/F8: runtime shim wiring (clone.go, equal.go, marshal_text.go, extensions.go, json.go, grpc_codec.go, message_types.go, reset.go)
 	curInfo = root.info
 	writeShimFacts(root, filepath.Join(*out, "Shim.lean"))
+	writeWireFuncs(root, filepath.Join(*out, "WireFuncs.lean"))
 	writeTemplateFacts(*repo, filepath.Join(*out, "Templates.lean"))
 	writeAliasFacts(root, *repo, filepath.Join(*out, "Aliasing.lean"))
 
